@@ -254,9 +254,9 @@ def _selftest(ctx):
         raise vlib.Inconclusive("self-test: the monitor rejects the correct hand-written schedule: %s" % sorted(got)[:5])
     if not want <= got:
         raise vlib.Inconclusive("self-test: the monitor did not reject falsified fields: %s" % sorted(want - got))
-    dbl = [len(_synth(0)) * (j + 1) + i + 1 for j, (c, i, f) in enumerate(fals) if c == "Restore" and len(_synth(0)[i]["calls"]) == 1
-           and len((lambda r: (f(r), r)[1])(dict(_synth(0)[i]))["calls"]) == 2]
-    if [l for l, _ in res["O"]] != dbl:
+    # the falsification with two restoring writes is also the one AtMostOneRestore observation
+    dbl = [n0 * (j + 1) + i + 1 for j, (c, i, f) in enumerate(fals) if c == "Restore" and len(trace[n0 * (j + 1) + i]["calls"]) == 2]
+    if [l for l, _ in res["O"]] != dbl or len(dbl) != 1:
         raise vlib.Inconclusive("self-test: AtMostOneRestore observations %s, expected at %s" % (res["O"], dbl))
     return len(fals)
 
